@@ -72,6 +72,13 @@ for tgt, pats in ((first5, ['/tmp/mx/r5-*.txt']), (det5, ['/tmp/mx/r5-*.txt', '/
                     if '=' in kv:
                         c, rc = kv.split('=')
                         d[c] = max(int(rc), d.get(c, 0)) if tgt is det5 else int(rc)
+# regression of every kept change against the final checks (tools/regress_seeded.sh): id -> {check: rc}
+reg = {}
+for f in sorted(glob.glob('/tmp/mx/regress-*.txt')):
+    for line in open(f):
+        parts = line.split()
+        if len(parts) >= 2 and '=' in parts[1]:
+            reg[parts[0]] = {kv.split('=')[0]: int(kv.split('=')[1]) for kv in parts[1:] if '=' in kv}
 n = 0
 for d in sorted(glob.glob('/tmp/seed/out/C*/m*/')) + sorted(glob.glob('/tmp/seed/out2/C*/m*/')) + sorted(glob.glob('/tmp/seed/out3/C*/m*/')) + sorted(glob.glob('/tmp/seed/out4/C*/m*/')) + sorted(glob.glob('/tmp/seed/out5/C*/m*/')):
     pid, k = d.rstrip('/').split('/')[-2:]
@@ -129,6 +136,12 @@ for d in sorted(glob.glob('/tmp/seed/out/C*/m*/')) + sorted(glob.glob('/tmp/seed
         "detected_by_own_property_check": checks.get(pid) == 1,
         "detected_by": sorted([k2 for k2, v in checks.items() if v == 1]),
     }
+    if sid in reg:
+        meta["regression_run_with_the_final_checks"] = {k2: ("VIOLATION" if v == 1 else ("clean" if v == 0 else f"exit {v}")) for k2, v in sorted(reg[sid].items())}
+        for k2, v in reg[sid].items():
+            if v == 1 and k2 not in meta["detected_by"]:
+                meta["detected_by"] = sorted(meta["detected_by"] + [k2])
+        meta["detected_by_own_property_check"] = meta["detected_by_own_property_check"] or reg[sid].get(pid) == 1
     if round2:
         meta["detected_by_own_check_before_round2_strengthening"] = old2.get(sid, {}).get(pid) == 1
     if round3:
